@@ -75,6 +75,8 @@ def spaces(tier):
         out.append(cs.db_space(5, cs.COMBOS[3], 1))
         for combo in cs.EXTREME:
             out.append(cs.db_space(3, combo, 1))
+        for combo in cs.COMBOS[2:4]:
+            out.append(cs.db_space(4, combo, 0, base_level=-171.6))
         for n in (2, 3):
             out.append(cs.db_space(n, cs.COMBOS[n % 4], 1, cli=True))
     else:
